@@ -445,6 +445,18 @@ Definition with_arg {A} (r : rarg) (body : id -> M A) : M A :=
   | RRef i => body i
   end.
 
+(* the insertion call with its argument temporaries: key first, value second *)
+Definition nc_ins_args (n : nc) (p : pos) (rk rv : rarg) : M nc :=
+  let k := ckind n in
+  match k, rv with
+  | KPoolList, RTmp z => nc_insert n PBack 0 (VInt z)     (* list.append<int>(z): T(z) is built in place *)
+  | KPoolList, RRef i => nc_insert n PBack 0 (VRef i)
+  | _, _ =>
+      with_arg rk (fun kr =>
+        if val_default k then nc_insert n (ins_p k p) kr VDefault
+        else with_arg rv (fun vr => nc_insert n (ins_p k p) kr (VRef vr)))
+  end.
+
 Definition put (st : state) (x : nat) (m : M cont) : res (bool * state) :=
   match m (sw st) with
   | Ok (c, w) => Ok (true, mkS w (set_at x (Some c) (svars st)))
@@ -521,16 +533,7 @@ Definition step (st : state) (o : op) : res (bool * state) :=
           let k := ckind n in
           match (if need_key k then marg_key vs ka else Some (RRef 0)),
                 (if need_val k then marg_val vs va else Some (RRef 0)) with
-          | Some rk, Some rv =>
-              match k, rv with
-              | KPoolList, RTmp z =>       (* list.append<int>(z): T(z) is built in place *)
-                  put st x (lift CN (nc_insert n PBack 0 (VInt z)))
-              | KPoolList, RRef i => put st x (lift CN (nc_insert n PBack 0 (VRef i)))
-              | _, _ =>
-                  put st x (lift CN (with_arg rk (fun kr =>
-                                     if val_default k then nc_insert n (ins_p k p) kr VDefault
-                                     else with_arg rv (fun vr => nc_insert n (ins_p k p) kr (VRef vr)))))
-              end
+          | Some rk, Some rv => put st x (lift CN (nc_ins_args n p rk rv))
           | _, _ => skip st
           end
       | None => skip st
